@@ -14,6 +14,7 @@ from fvmon import gen
 from fvmon.observe import content, snap, unbox, RC, idset
 
 SPEC = {
+    "anchors": ["fibertree.core.iterators:__iter__", "fibertree.core.iterators:iterRange", "fibertree.core.iterators:iterRangeShape", "fibertree.core.iterators:iterRangeShapeRef", "fibertree.core.iterators:iterShape", "fibertree.core.iterators:iterActive", "fibertree.core.iterators:coiterRangeShape", "fibertree.core.iterators:coiterRangeShapeRef", "fibertree.core.fiber:Fiber.fromIterator", "fibertree.core.fiber:Fiber.fromLazy", "fibertree.core.fiber:Fiber.project", "fibertree.core.fiber:Fiber.prune"],
     "rule": ("cases = one fiber configuration (3-state occupancy vector over 4 (quick) / 6 (thorough) coordinates, "
              "or random; leaf or interior payloads; free or tensor-owned; format C or U; declared shape / active "
              "range / default; optional negative coordinate offset) x a list of traversals (all 13 modes; for the "
